@@ -254,7 +254,9 @@ def unit_initialize_workers(sess, ctx):
         echo = eng.choose(2, None, "-E?") == 1
         cmd = eng.choose(2, None, "-C?") == 1
         quiet = eng.choose(2, None, "-q?") == 1
-        printf, tf, tsf = "{id} {start}\\t{end}\\n", Opq(tag="tf"), Opq(tag="tsf")
+        printf, tf, tsf = "{id} \u2192 {start}\\t{end}\\n d\u00e9tection", Opq(tag="tf"), Opq(tag="tsf")
+        import codecs as _codecs
+        eng.lib["codecs.decode"] = lambda e, a, k: _codecs.decode(*[e.force(x) for x in a])
         kw = {"input": Opq(tag="input"), "save_stream": Opq(tag="str") if has_O else None,
               "join_detections": Fl(Real("j")) if has_j else None, "export_format": Opq(tag="T"),
               "save_detections_as": Opq(tag="str") if has_o else None, "echo": echo, "progress_bar": False,
@@ -306,7 +308,7 @@ def unit_initialize_workers(sess, ctx):
         if not quiet:
             pw = [x for x in log if x[0] == "PrintWorker"][0]
             eng.prove("C15:init_workers:print-worker-gets-printf(escapes-expanded)-and-time-format",
-                      pw[1][0] == "{id} {start}\t{end}\n" and pw[1][1] is tf and pw[1][2] is tsf, props=P15)
+                      pw[1][0] == "{id} \u2192 {start}\t{end}\n d\u00e9tection" and pw[1][1] is tf and pw[1][2] is tsf, props=P15)
         eng.prove("C15:init_workers:split-options-reach-the-tokenizer-worker", tkw.get("min_dur") is kw["min_dur"], props=P15)
         return None
     sess.run_unit(u, eng, run_)
